@@ -301,3 +301,12 @@ Example C12_special_categories_are_used :
   forallb (fun c => existsb (fun r => rr_cat r =? c) (t_rwa x86_tables ++ t_rwb x86_tables)) [2; 3; 4; 5; 6; 7; 8; 9; 10; 11; 12; 13; 14; 15; 16] = true.
 Proof. vm_compute. reflexivity. Qed.
 Print Assumptions C12_special_categories_are_used.
+
+(* round 7: instructions of the narrowing-move categories that are NOT implicitly zeroing exist in the dumped tables (so both branches of
+   C12_narrowing_moves_masked occur), and widening-move instructions exist *)
+Example C12_masked_move_categories_nonvacuous :
+  existsb (fun ii => let c := rr_cat (nthN (t_rwa x86_tables) (ir_a ii) d_rw) in (11 <=? c) && (c <=? 13) && negb (test (ir_avx512 ii) kImplicitZ))
+          (t_inst x86_tables) = true /\
+  existsb (fun ii => let c := rr_cat (nthN (t_rwa x86_tables) (ir_a ii) d_rw) in (14 <=? c) && (c <=? 16)) (t_inst x86_tables) = true.
+Proof. split; vm_compute; reflexivity. Qed.
+Print Assumptions C12_masked_move_categories_nonvacuous.
